@@ -5,3 +5,5 @@ import "testing"
 func TestC13(t *testing.T) { RunProp(t, propC13) }
 func TestC01(t *testing.T) { RunProp(t, propC01) }
 func TestC10(t *testing.T) { RunProp(t, propC10) }
+func TestC05(t *testing.T) { RunProp(t, propC05) }
+func TestC19(t *testing.T) { RunProp(t, propC19) }
